@@ -51,6 +51,39 @@ type oddIfaces struct {
 	N int          `config:"n"`
 }
 
+// fields whose type is one of the Unpacker interfaces (or an interface with an Unpack method), left nil by the caller
+type oddUnpackIfaces struct {
+	X interface {
+		Unpack(*ucfg.Config) error
+	} `config:"x"`
+	Y ucfg.Unpacker         `config:"y"`
+	M ucfg.ConfigUnpacker   `config:"m"`
+	N ucfg.IntUnpacker      `config:"n"`
+	L []ucfg.StringUnpacker `config:"l"`
+	A int                   `config:"a"`
+}
+
+// hand-written Unpackers held in fields, map entries and list elements whose type is an interface
+type oddAny struct{ got interface{} }
+
+func (o *oddAny) Unpack(v interface{}) error { o.got = v; return nil }
+
+type oddUnpackHeld struct {
+	Y ucfg.Unpacker            `config:"y"`
+	I interface{}              `config:"i"`
+	M map[string]ucfg.Unpacker `config:"m"`
+	L []ucfg.Unpacker          `config:"l"`
+	A int                      `config:"a"`
+}
+
+func prefillOdd(target reflect.Value) {
+	if h, ok := target.Interface().(*oddUnpackHeld); ok {
+		h.Y, h.I = &oddAny{}, &oddAny{}
+		h.M = map[string]ucfg.Unpacker{"k": &oddAny{}, "k1": &oddAny{}}
+		h.L = []ucfg.Unpacker{&oddAny{}, &oddAny{}}
+	}
+}
+
 type oddFuncs struct {
 	F func()
 	C chan int
@@ -99,6 +132,8 @@ var oddTargets = map[string]reflect.Type{
 	"unpackNoParam":  reflect.TypeOf(oddUnpackNoParam{}),
 	"unpackOther":    reflect.TypeOf(oddUnpackOther{}),
 	"unpackHolder":   reflect.TypeOf(oddUnpackHolder{}),
+	"unpackIfaces":   reflect.TypeOf(oddUnpackIfaces{}),
+	"unpackHeld":     reflect.TypeOf(oddUnpackHeld{}),
 	"blank":          reflect.TypeOf(oddBlank{}),
 	"under":          reflect.TypeOf(oddUnder{}),
 	"caseless":       reflect.TypeOf(oddCaseless{}),
@@ -134,6 +169,7 @@ func kOddTarget(c J) interface{} {
 		return J{"create": errKind(err)}
 	}
 	target := reflect.New(t)
+	prefillOdd(target)
 	if err := cfg.Unpack(target.Interface(), buildOpts(c["uopts"])...); err != nil {
 		return errKind(err)
 	}
